@@ -91,10 +91,14 @@ def gen_cfg(rng, tier):
     if rng.chance(1, 2):
         ops.append("w")
     ops.append("x")
+    if rng.chance(1, 12):
+        # the boundary configuration: no worker may ever be created, every task stays queued until clear()/stop() destroys it
+        mx = 0
+        ops = [o for o in ops if o != "w"]
     return "%d:%s" % (mx, ",".join(ops))
 
 
-DFS_QUICK = ["1:s,x", "1:s,s,x", "2:s,s,x", "1:s,w,x", "1:s,x,s,w,x", "2:s,c,s,x", "2:f,g,w,x"]
+DFS_QUICK = ["0:s,f,x,s,x", "1:s,x", "1:s,s,x", "2:s,s,x", "1:s,w,x", "1:s,x,s,w,x", "2:s,c,s,x", "2:f,g,w,x"]
 DFS_THOROUGH = DFS_QUICK + ["3:s,s,s,x", "2:s,s,w,x,s,x", "1:s,s,c,w,x", "2:s,x,x,s,s,w,x", "1:s,f,g,x", "3:s,c,x,f,w,x", "2:s,s,s,c,s,w,x"]
 
 
@@ -346,7 +350,7 @@ def monitor(prop, cfg, run):
                     msgs.append("getThreadCount() = %d after stop() returned" % n)
                 if in_restart:
                     # first start after a stop(): a worker must have been spawned
-                    if n < 1:
+                    if n < 1 and mx >= 1:
                         msgs.append("start() after stop() did not spawn a worker (getThreadCount() = %d)" % n)
                     in_restart = restart_pending = False
             elif t[0] == "op" and t[1] == "start":
